@@ -204,9 +204,41 @@ def zero_crossings_unbounded(V, keep_adj):
                         singles += [ps, qs, pw, qw]
                         pairs += [(ps, qs), (qs, ps), (pw, qw), (qw, pw)]
             out.prove_qf('ascending-without-duplicates', T.slt(z[k - 1], z[k]), singles=singles, pairs=pairs)
-        # completeness (every crossing is reported) needs the inverse permutation of the sort and both where-position
-        # functions as instantiation hints; z3 does not find them within budget, so completeness is covered by the bounded
-        # membership clauses of `get_zero_crossings_array_indices` above and is NOT claimed unbounded.
+        # completeness (every crossing is reported): the WITNESS position is built from the position functions of the where() calls, the
+        # inverse permutation of the sort and the front insertion of 0; quantifier free from the instances the witness needs
+        cache = out.cx.cache
+        wcs, scs = cache.get('where-calls', []), cache.get('sort-calls', [])
+        i = V.skolem('i_c', 0, n)
+        I_ = lambda t: T.to_int_term(t)
+        is_zero_hit = T.sand(T.sge(i, 1), T.seq(x[i], 0), True if keep_adj else T.sne(x[T.ssub(i, 1)], 0))
+        is_change = T.sand(T.sge(i, 1), T.slt(T.smul(x[i], x[T.ssub(i, 1)]), 0))
+        ok_struct = len(wcs) in (2, 3) and len(scs) <= 1
+        out.prove('completeness/where-and-sort-calls-as-expected', ok_struct)
+        if ok_struct:
+            W1, W3 = wcs[0], wcs[-1]
+            W2 = wcs[1] if len(wcs) == 3 else None
+            p1 = T.N(W1['pos'](I_(i)))
+            o_zero = T.N(W2['pos'](I_(p1))) if W2 is not None else p1
+            nzero = W2['m'] if W2 is not None else W1['m']
+            p3 = T.N(W3['pos'](I_(i)))
+            o_thr = T.sadd(nzero, p3)
+            base = [i, T.ssub(i, 1), p1, T.ssub(p1, 1), p3, o_zero, o_thr, 0, 1, nzero, T.ssub(nzero, 1)]
+            if scs:
+                L, bwd = scs[0]['n'], scs[0]['bwd']
+                ins = T.ssub(m, L)                                  # 1 when a leading 0 was inserted, else 0
+                for nm, o, cond in (('exact-zero', o_zero, is_zero_hit), ('sign-change', o_thr, is_change)):
+                    sp_ = T.N(bwd(I_(o)))
+                    k = T.sadd(sp_, ins)
+                    singles = base + [o, sp_, k, T.ssub(k, 1), T.ssub(o, nzero)]
+                    pairs = [(T.ssub(p1, 1), p1), (0, p1), (0, p3)]
+                    out.prove_qf('completeness/every-%s-crossing-is-reported' % nm,
+                                 T.simplies(cond, T.sand(T.sle(0, k), T.slt(k, m), T.seq(z[k], i))), singles=singles, pairs=pairs)
+                    if os.environ.get('PYVC_CANARY'):
+                        # vacuity guard (tools): the same instance set with the crossing condition assumed must NOT prove False
+                        out.prove_qf('CANARY/%s' % nm, T.simplies(cond, False), singles=singles, pairs=pairs)
+            else:
+                # nothing found at all (the function returns [0]): then no sample other than 0 is a crossing
+                out.prove_qf('completeness/no-crossing-exists-when-only-0-is-reported', T.snot(T.sor(is_zero_hit, is_change)), singles=base, pairs=[(0, p1), (0, p3)])
         out.unchanged('x', x)
 
 
